@@ -10,6 +10,17 @@ TRUST = ("TLC 1.8 and the TLA+ semantics; harness/absmap.py (gamma builds real o
          "alpha reads public props/paths/errors); the bounded universes stated in the evidence file")
 
 CHECKS = {
+ "C09": dict(
+    text="TLC explores spec/MC_Regex.tla: regex ASTs built by constructor actions (atoms incl. ranges, negated classes "
+         "and categories; capturing/non-capturing/named groups; alternation; greedy/lazy quantifiers incl. open-ended "
+         "ones with a minimum above max_repeat; anchors at the ends; lookaround, backreference, \\s/\\D/\\W, atomic and "
+         "possessive constructs embedded anywhere), each observed under tapes of draw outcomes and several max_repeat "
+         "settings on the generator model, and checks: a returned string is a full match under the spec's "
+         "set-of-end-positions matcher, a supported pattern is never refused, a reached unsupported construct raises. "
+         "Every (pattern, tape, max_repeat) is printed and run on the real RegexGenerator under the scripted RNG and "
+         "through fake(schema.str.regex(p)); spec/Trace_C09.tla decides with the spec matcher, re.fullmatch and validate.",
+    design="7 C09", technique="TLA+ regex semantics and generator model + TLC over pattern programs x tapes; runs "
+                              "replayed on the real generator; events trace-validated by TLC"),
  "C07": dict(
     text="spec/D42.tla is the top-level machine over (pool of schemas, heap of caller-owned containers, history): "
          "every public operation is an action. TLC checks the action properties SchemasAreImmutable and "
